@@ -107,6 +107,14 @@ class PoolRun(object):
                     exc = EmptyGroupError(tid) if param == "falsy" else TaskError(tid)
                     run.outcomes[tid] = ("raise", exc)
                     raise exc
+                if kind == "parent":
+                    # enqueues a child on the pool it runs on and waits for the child's result: needs a second worker
+                    child = run.pool.enqueue(lambda: "child of %s" % tid)
+                    try:
+                        child.result(param)
+                        s.emit("child", tid, True)
+                    except OSError:
+                        s.emit("child", tid, False)
                 if kind == "abort":
                     exc = TaskAbort(tid)
                     run.outcomes[tid] = ("raise", exc)
